@@ -3,7 +3,7 @@
 
 use super::cfg::BCfg;
 use super::world::{Mode, PhcState, PollInfo, SharedWorld};
-use super::{PHC_REFID, ROLE_CLIENT, ROLE_DAEMON, ROLE_PUB};
+use super::{phc_refid_of, ROLE_CLIENT, ROLE_DAEMON, ROLE_PUB};
 use crate::models::{self, bound_formula, classify_report, decay, half_width, ts_ns, ErrKind, MsgKind, Status, UpdaterModel, NS};
 use crate::util::*;
 use serde_json::{json, Value};
@@ -41,6 +41,10 @@ pub struct PubRec {
     pub at: i64,
     pub inc: u32,
     pub pre_sync: bool,
+    /// generation in the header once this publication was complete, and which life of the file
+    /// (the count of re-creations before it) it belongs to
+    pub gen: u16,
+    pub epoch: u32,
 }
 
 struct Daemon {
@@ -80,6 +84,9 @@ pub struct CallObs {
     pub pubs_at_begin: usize,
     pub inflight_at_begin: bool,
     pub delayed: bool,
+    pub recreating_at_begin: bool,
+    pub gen_at_begin: u16,
+    pub recreated_during: bool,
 }
 
 #[derive(Clone, Debug, Default)]
@@ -90,6 +97,9 @@ struct ClientState {
     last_growth: Option<(PRecord, i128, i128)>,
     last_rec_at: Option<i64>,
     last_rec: Option<PRecord>,
+    /// the client's cache may hold a mixture of two lives of the file (a call of its spanned a
+    /// re-creation after third-party damage)
+    tainted: bool,
 }
 
 pub struct BState {
@@ -100,6 +110,12 @@ pub struct BState {
     pub pubs: Vec<PubRec>,
     clients: Vec<ClientState>,
     update_in_flight: bool,
+    /// the daemon has begun to re-create the segment file and has not published into it yet
+    recreating: bool,
+    live_gen: u16,
+    file_epoch: u32,
+    /// a third party damaged the file header at some point of this run
+    pub damaged_ever: bool,
     /// (distance as_of - mono, was causality error) per judged call with mono < as_of
     blur_obs: Vec<(i128, bool)>,
     hist: Vec<Value>,
@@ -135,6 +151,10 @@ impl BState {
             pubs: Vec::new(),
             clients: (0..nclients).map(|_| ClientState { tid: u32::MAX, ..Default::default() }).collect(),
             update_in_flight: false,
+            recreating: false,
+            live_gen: 0,
+            file_epoch: 0,
+            damaged_ever: false,
             blur_obs: Vec::new(),
             hist: Vec::new(),
             ended: false,
@@ -159,6 +179,7 @@ impl BState {
     fn on_publication(&mut self, di: usize, rec: PRecord, now: i64) {
         let drift = self.cfg.drift_ppb;
         let phc_cfg = self.cfg.phc;
+        let phc_name = self.cfg.phc_name;
         let d = &mut self.daemons[di];
         d.pubs += 1;
         if d.pubs >= d.sent.len() {
@@ -167,7 +188,8 @@ impl BState {
         let inc = d.inc;
         let Some(pi) = d.cur_msg.take() else {
             self.out.violate(&["C08"], "publication_without_message", "extra".into(), format!("daemon incarnation {inc} published {rec:?} without a poll outcome having been delivered"));
-            self.pubs.push(PubRec { rec, at: now, inc, pre_sync: !self.daemons[di].model.seen_sync });
+            self.pubs.push(PubRec { rec, at: now, inc, pre_sync: !self.daemons[di].model.seen_sync, gen: self.live_gen, epoch: self.file_epoch });
+            self.recreating = false;
             return;
         };
         let poll = d.polls[pi].clone();
@@ -235,7 +257,7 @@ impl BState {
                     }
                     if cls_eff == Status::Synchronized {
                         // C07 (+C13 for the PHC part): the bound
-                        let phc_add: Option<i64> = match (phc_cfg != 0 && t.ref_id == PHC_REFID, info.as_ref().map(|i| i.phc)) {
+                        let phc_add: Option<i64> = match (phc_cfg != 0 && t.ref_id == phc_refid_of(phc_name), info.as_ref().map(|i| i.phc)) {
                             (true, Some(PhcState::Present(v))) => Some(v),
                             (true, _) => None,
                             (false, _) => Some(0),
@@ -267,7 +289,7 @@ impl BState {
                                         props,
                                         "bound_formula",
                                         format!("offset_sign={} phc_related={} dir={}", if t.offset < 0.0 { "neg" } else { "nonneg" }, phc_related, if diff < 0 { "below" } else { "above" }),
-                                        format!("report offset={:e} delay={:e} disp={:e} phc={:?} (ref match {}): published bound {} ns, exact formula gives {} ns", t.offset, t.delay, t.disp, info.as_ref().map(|i| i.phc), t.ref_id == PHC_REFID, got, want),
+                                        format!("report offset={:e} delay={:e} disp={:e} phc={:?} (ref match {}): published bound {} ns, exact formula gives {} ns", t.offset, t.delay, t.disp, info.as_ref().map(|i| i.phc), t.ref_id == phc_refid_of(phc_name), got, want),
                                     ));
                                 } else {
                                     probes.push("judged.bounds_vs_exact_formula");
@@ -312,8 +334,8 @@ impl BState {
         // C13: message class vs poll outcome and grace-period timing
         {
             let had_tracking = tracking.is_some();
-            let phc_unreadable = matches!(info.as_ref().map(|i| i.phc), Some(PhcState::Missing));
-            let phc_match = tracking.as_ref().map(|t| phc_cfg != 0 && t.ref_id == PHC_REFID).unwrap_or(false);
+            let phc_unreadable = matches!(info.as_ref().map(|i| i.phc), Some(PhcState::Missing) | Some(PhcState::Unreadable));
+            let phc_match = tracking.as_ref().map(|t| phc_cfg != 0 && t.ref_id == phc_refid_of(phc_name)).unwrap_or(false);
             match kind {
                 MsgKind::Data => {
                     if phc_match && phc_unreadable {
@@ -413,7 +435,7 @@ impl BState {
                         if rec.bound != prev_bound {
                             if let Some(exp) = bound_formula(t.offset, t.delay, t.disp) {
                                 let phc = match info.as_ref().map(|i| i.phc) {
-                                    Some(PhcState::Present(v)) if phc_cfg != 0 && t.ref_id == PHC_REFID => v as i128,
+                                    Some(PhcState::Present(v)) if phc_cfg != 0 && t.ref_id == phc_refid_of(phc_name) => v as i128,
                                     _ => 0,
                                 };
                                 if (rec.bound as i128 - (exp.ceil + phc)).abs() > 1 {
@@ -452,7 +474,8 @@ impl BState {
         }
         self.out.cover("outcome_kind_x_chronyd_mode", (kind as u64) * 16 + info.as_ref().map(|i| i.mode as u64).unwrap_or(15));
         self.h(json!({"publish": {"inc": inc, "outcome": format!("{kind:?}"), "status": status_name(rec.status), "bound": rec.bound, "as_of": [rec.as_of_s, rec.as_of_ns], "t": now}}));
-        self.pubs.push(PubRec { rec, at: now, inc, pre_sync: pre_sync && sample.is_none() });
+        self.pubs.push(PubRec { rec, at: now, inc, pre_sync: pre_sync && sample.is_none(), gen: self.live_gen, epoch: self.file_epoch });
+        self.recreating = false;
     }
 
     // ------------------------------------------------------------------------------------
@@ -465,7 +488,7 @@ impl BState {
 
     pub fn call_begin(&mut self, ci: usize) {
         let c = &mut self.clients[ci];
-        c.call = CallObs { active: true, pubs_at_begin: self.pubs.len(), inflight_at_begin: self.update_in_flight, ..Default::default() };
+        c.call = CallObs { active: true, pubs_at_begin: self.pubs.len(), inflight_at_begin: self.update_in_flight, recreating_at_begin: self.recreating, gen_at_begin: self.live_gen, ..Default::default() };
     }
 
     pub fn set_synthetic_record(&mut self, r: PRecord) {
@@ -482,6 +505,14 @@ impl BState {
             // (the simulator builds with overflow checks: an arithmetic wrap that would silently corrupt the
             // interval in a release build surfaces here as a panic, hence C05 as well)
             self.out.violate(&["C14", "C05"], "client_call_panicked", "panic".into(), format!("client call (kind {kind}) panicked: {m}; record {known:?}"));
+            return;
+        }
+        if obs.recreated_during && self.damaged_ever {
+            // the file was re-created (after third-party damage) while this call was copying the
+            // record: what it read is a mixture of two lives of the file, not covered by any property
+            self.out.probe("probe.call_spanning_a_recreation_not_judged");
+            self.clients[ci].last_rec = None;
+            self.clients[ci].tainted = true;
             return;
         }
         // clock readings of this call
@@ -590,6 +621,15 @@ impl BState {
             eprintln!("client {ci} kind {kind} mono={mono_v} matched rank {rank:?} rec {rec:?} of {} pubs", self.pubs.len());
         }
         let law_ok = law_viol.is_empty();
+        if self.clients[ci].tainted {
+            let fresh = law_ok && self.pubs.last().map(|n| n.rec == rec && n.epoch == self.file_epoch).unwrap_or(false);
+            if fresh {
+                self.clients[ci].tainted = false;
+            } else {
+                self.out.probe("probe.answer_from_a_cache_mixed_by_a_recreation_not_judged");
+                return;
+            }
+        }
         if law_ok {
             self.clients[ci].last_rec = Some(rec);
         }
@@ -635,11 +675,44 @@ impl BState {
             }
             self.clients[ci].last_growth = Some((rec, mono_v, half));
             // C04b (daemon level): an attached raw client sees the newest publication when idle
-            if known.is_some() && !self.cfg.weak && !obs.inflight_at_begin && !obs.pub_began_during && !self.update_in_flight && obs.pubs_at_begin == self.pubs.len() {
-                if let Some(newest) = self.pubs.last() {
+            // (for the client libraries the record used is the newest one that explains the answer:
+            // if that is not the newest publication, the newest publication does not explain it)
+            if (known.is_some() || law_ok) && !self.cfg.weak && !obs.inflight_at_begin && !obs.pub_began_during && !self.update_in_flight && obs.pubs_at_begin == self.pubs.len() && !obs.recreating_at_begin && !self.recreating {
+                if let Some(newest) = self.pubs.last().cloned() {
                     self.out.probe("judged.raw_client_freshness");
-                    if newest.rec != rec {
-                        self.out.violate(&["C04", "C03"], "attached_client_stale", "stale".into(), format!("no update in flight, newest publication {:?} (incarnation {}), attached client used {:?}", newest.rec, newest.inc, rec));
+                    // After an in-place re-creation the generation counter starts again at 2. A
+                    // client that was attached all along and cached the record of generation g in an
+                    // earlier life of the file takes generation g of the new life for "nothing new"
+                    // and answers from its cache until the next update. The file is only ever
+                    // re-created under attached clients after a third party damaged it, which the
+                    // properties do not cover: noted, not judged.
+                    let planted_gen = match self.cfg.init_file { crate::world_a::Corrupt::SetValid { gen } => Some(gen), _ => None };
+                    let mut aba = false;
+                    if newest.rec != rec && self.file_epoch > 0 {
+                        // (any record of an earlier life with that generation that explains the answer:
+                        // with a zero drift rate several records can explain the same answer)
+                        let mut earlier: Vec<PRecord> = self.pubs.iter().filter(|p| p.epoch < self.file_epoch && p.gen == obs.gen_at_begin).map(|p| p.rec).collect();
+                        if planted_gen == Some(obs.gen_at_begin) {
+                            earlier.push(crate::world_a::rec_of(0));
+                        }
+                        for e in earlier {
+                            if e == rec || self.judge_law(&e, real_v, mono_v, &res).is_empty() {
+                                aba = true;
+                                break;
+                            }
+                        }
+                    }
+                    if aba {
+                        self.out.probe("probe.client_answered_from_cache_on_generation_coincidence_after_recreation");
+                    } else if newest.rec != rec {
+                        // C06 as well when the answer is stronger than the segment's record justifies
+                        let rank = |st: i32| match st { 1 => 2, 2 => 1, _ => 0 };
+                        let just = decay(Status::from_i32(newest.rec.status).unwrap_or(Status::Unknown), mono_v, ts_ns(newest.rec.as_of_s, newest.rec.as_of_ns), ts_ns(newest.rec.void_s, newest.rec.void_ns));
+                        let mut props = vec!["C04", "C03"];
+                        if rank(status) > rank(just as i32) {
+                            props.push("C06");
+                        }
+                        self.out.violate(&props, "attached_client_stale", format!("stronger={}", rank(status) > rank(just as i32)), format!("no update in flight, newest publication {:?} (incarnation {}), attached client used {:?}", newest.rec, newest.inc, rec));
                     } else if newest.inc > 0 && self.daemons.iter().any(|d| d.killed) {
                         self.out.nontrivial.insert("C04");
                     }
@@ -706,7 +779,11 @@ impl BState {
         // C14: malformed drift
         if rec.drift >= 1_000_000_000 {
             match res {
-                CallResult::Err { kind: 3, .. } => {}
+                CallResult::Err { kind: 3, errno, detail } => {
+                    if *errno != 0 || !detail.is_empty() {
+                        v.push((vec!["C14"], "error_payload", "malformed".into(), format!("malformed-segment error carries errno {errno} detail {detail:?}")));
+                    }
+                }
                 other => v.push((vec!["C14"], "malformed_drift_accepted", "drift>=1e9".into(), format!("drift {} ppb must yield the malformed-segment error, got {other:?}", rec.drift))),
             }
             return v;
@@ -914,9 +991,23 @@ impl Observer for BObserver {
             _ => {}
         }
         if role != ROLE_DAEMON {
+            if ev.kind == EvKind::Sigbus {
+                if s.damaged_ever {
+                    // the daemon truncates a file it found unusable; a client that still has the
+                    // damaged file mapped takes the SIGBUS (the damage was a third party's doing)
+                    s.out.probe("probe.sigbus_after_third_party_damage");
+                    for c in s.clients.iter_mut().filter(|c| c.tid == ev.tid) {
+                        c.call.active = false;
+                    }
+                } else {
+                    s.out.violate(&["C04"], "sigbus", "client".into(), "an attached client touched a page beyond the end of the segment file (truncated under it): SIGBUS in production".into());
+                }
+                return;
+            }
             if role == ROLE_PUB && ev.kind == EvKind::Store && (ev.a & 0xff) as usize == LOC_GEN {
                 let odd = ev.b & 1 == 1;
                 s.update_in_flight = odd;
+                s.live_gen = ev.b as u16;
                 if odd {
                     for c in s.clients.iter_mut() {
                         if c.call.active {
@@ -929,6 +1020,23 @@ impl Observer for BObserver {
         }
         let Some(di) = Self::daemon_of(&mut s, pid) else { return };
         match ev.kind {
+            EvKind::Point if ev.tag == "wipe:create" => {
+                s.recreating = true;
+                s.live_gen = 0;
+                s.file_epoch += 1;
+                s.out.probe("probe.daemon_recreates_the_segment_file");
+                let mut under = false;
+                for c in s.clients.iter_mut() {
+                    if c.call.active {
+                        c.call.pub_began_during = true;
+                        c.call.recreated_during = true;
+                        under = true;
+                    }
+                }
+                if under {
+                    s.out.probe("probe.segment_recreated_during_a_client_call");
+                }
+            }
             EvKind::Kill => s.daemons[di].killed = true,
             EvKind::Delay => {
                 let d = &mut s.daemons[di];
@@ -970,6 +1078,15 @@ impl Observer for BObserver {
             EvKind::ChronyQuery => {
                 let d = &mut s.daemons[di];
                 d.poller = Some(ev.tid);
+                // C13/C08 liveness: every poll outcome is reported to the writer. (A handful of
+                // immediate re-queries would be a legitimate retry policy; a poller that keeps
+                // querying without ever reporting is not.)
+                let unreported = d.polls.iter().rev().take_while(|p| p.msg.is_none()).count();
+                if unreported == 16 {
+                    let inc = d.inc;
+                    s.out.violate(&["C13", "C08"], "poll_outcomes_never_reported", "silent".into(), format!("incarnation {inc}: 16 consecutive chronyd queries without any message to the writer"));
+                }
+                let d = &mut s.daemons[di];
                 let as_of = d.pending_as_of.take();
                 if as_of.is_none() {
                     s.out.violate(&["C12"], "query_without_prior_monotonic_read", "order".into(), "chronyd was queried without a monotonic reading having been taken first in this iteration".into());
@@ -1075,6 +1192,7 @@ impl Observer for BObserver {
                     let odd = ev.b & 1 == 1;
                     s.daemons[di].writer = Some(ev.tid);
                     s.update_in_flight = odd;
+                    s.live_gen = ev.b as u16;
                     if odd {
                         for c in s.clients.iter_mut() {
                             if c.call.active {
